@@ -287,10 +287,18 @@ def conv_kind_of_reader(value_expr: ast.AST) -> str:
     return "other"
 
 
-def tested_keys(test: ast.AST) -> Optional[List[str]]:
+def tested_keys(test: ast.AST, fn: Optional[ast.AST] = None) -> Optional[List[str]]:
     cp = match.compare_parts(test)
     if not cp or not (isinstance(cp[0], ast.Name) and cp[0].id == R["key"]):
         return None
+    if isinstance(cp[1], ast.In) and isinstance(cp[2], ast.Name) and fn is not None:
+        # `key in <local>`: the local's one literal definition (adjacent string literals are already joined by the parser, so a
+        # missing comma shows as one long key)
+        vals = [v for v in match.assigned_value(fn, cp[2].id)]
+        if len(vals) == 1 and isinstance(vals[0], (ast.List, ast.Tuple, ast.Set)):
+            ks = [const_str(e) for e in vals[0].elts]
+            if all(k is not None for k in ks):
+                return ks  # type: ignore[return-value]
     if isinstance(cp[1], ast.Eq) and const_str(cp[2]) is not None:
         return [const_str(cp[2])]
     if isinstance(cp[1], ast.In) and isinstance(cp[2], (ast.List, ast.Tuple, ast.Set)):
@@ -353,7 +361,7 @@ def extract_reader_table(ctx, m, translate: Dict[str, str]):
     branches = []
     node: Optional[ast.If] = chain[0]
     while node is not None:
-        keys = tested_keys(node.test)
+        keys = tested_keys(node.test, fn)
         if keys is None:
             raise AnalysisError("parse_component: unrecognised branch condition %s" % short(node.test))
         branches.append((keys, node.body, node))
@@ -878,6 +886,39 @@ def check_writer_keeps_text(ctx, m, wt) -> None:
     ctx.floor(rule, n, 15, "writer converters and their helpers")
 
 
+def check_glob_directories_escaped(ctx, m) -> None:
+    RID = "C19.R15-directories-in-glob-patterns-are-escaped"
+    n = 0
+    for q, f in m.functions.items():
+        for c in source.calls_in(f, include_nested=False):
+            if call_name(c) not in ("glob.glob", "glob.iglob") or not c.args:
+                continue
+            n += 1
+            pat = c.args[0]
+            # the run-time parts of the pattern: everything that is not a string constant
+            parts = pat.args if isinstance(pat, ast.Call) and call_name(pat) == "os.path.join" else [pat]
+
+            def escaped(e: ast.AST, depth: int = 0) -> bool:
+                if isinstance(e, ast.Constant):
+                    return True
+                if isinstance(e, ast.Call) and call_name(e) == "glob.escape":
+                    return True
+                if isinstance(e, ast.Name) and depth < 3:
+                    vals = match.assigned_value(f, e.id)
+                    return bool(vals) and all(escaped(v, depth + 1) for v in vals)
+                if isinstance(e, ast.Call) and call_name(e) == "os.path.join":
+                    return all(escaped(a_, depth + 1) for a_ in e.args)
+                return False
+            bad = [p_ for p_ in parts if not escaped(p_)]
+            ctx.ob(RID, c, not bad,
+                   "%s: the directory inside the glob pattern is escaped" % q if not bad else
+                   "%s builds a glob pattern from the run-time directory %s without glob.escape: an instance directory whose path contains '[1]', '*' or '?' "
+                   "matches nothing - 0 stage files are accepted silently and the instance loads as an empty workflow (the written components are "
+                   "lost on reload)" % (q, short(bad[0], 30)),
+                   construct="%s: %s" % (q, short(c, 70)))
+    ctx.floor(RID, n, 4, "glob patterns in dosini.py")
+
+
 def check_one_text_encoding(ctx, m) -> None:
     """Writers: text-mode open(.., 'w') of dosini.py; readers: the encoding handed to ConfigParser.read by the parser subclass (its
     fallback when the caller gives none) and by explicit callers.  A byte above 0x7F written in one encoding and decoded in another comes
@@ -962,6 +1003,9 @@ def run(ctx) -> None:
              "when the look-up of THAT name failed: no statement that can raise follows the name's look-up inside the same try body "
              "(otherwise a value that is present in the description is dropped because another one is absent)")
     ctx.rule("C19.R4-reader-without-writer", "options parsed but never written are exactly the frozen list")
+    ctx.rule("C19.R15-directories-in-glob-patterns-are-escaped", "every glob pattern of dosini.py is a constant wildcard part joined to a directory that went "
+             "through glob.escape: the directory of an instance is text - with '[1]' in its path an unescaped pattern matches no stage file and the "
+             "instance loads as an empty workflow")
     ctx.rule("C19.R14-one-text-encoding", "the encoding the reader decodes the configuration files with is the one the writers encode them with "
              "(an unspecified encoding is the platform default, UTF-8 here)")
 
@@ -1218,3 +1262,6 @@ def run(ctx) -> None:
 
     # R14: one text encoding on both sides -------------------------------------------------------------
     check_one_text_encoding(ctx, m)
+
+    # R15: run-time directories inside glob patterns ------------------------------------------------------
+    check_glob_directories_escaped(ctx, m)
